@@ -204,12 +204,13 @@ pub fn deviations2(template: &str, trivia: &[&str]) -> Vec<String> {
     out
 }
 
-pub const NUMBER_SPELLINGS: &[&str] = &["1", "0x1F", "0X1f", "0b101", "0B11", "1_000", "1e3", "1E+3", "1e-3", ".5", "5.", "0x_1", "1__0", "0.1e1_0", "0xFFFFFFFFFFFFFFFF", "1e400", "00012", "9007199254740993", "0.30000000000000004", "1_"];
+pub const NUMBER_SPELLINGS: &[&str] = &["1", "0x1F", "0X1f", "0b101", "0B11", "1_000", "1e3", "1E+3", "1e-3", ".5", "5.", "0x_1", "1__0", "0.1e1_0", "0xFFFFFFFFFFFFFFFF", "1e400", "00012", "9007199254740993", "0.30000000000000004", "1_", "1_000.", "0_0.", "1__.", "1_.5", "0x1p", "1e1_"];
 pub const STRING_SPELLINGS: &[&str] = &[
     "\"a\"", "'a'", "[[a]]", "[==[a]==]", "\"\\z  a\"", "\"\\x41\"", "\"\\u{41}\"", "\"\\065\"", "\"a\\\nb\"", "\"\\\"\"", "'\\''", "[[\na]]", "[[a\nb]]", "[=[]]]=]", "\"\\a\\b\\f\\n\\r\\t\\v\\\\\"",
     "\"\\0\"", "\"\\255\"", "\"é\"", "\"\\u{1F600}\"", "''", "[[]]", "\"a\\z\n   b\"", "\"tab\there\"",
+    "\"\\u{D800}\"", "\"\\u{DFFF}\\u{DC00}x\"", "\"\\0101\"", "'\\u{10FFFF}\\u{0}'",
 ];
-pub const INTERP_SPELLINGS: &[&str] = &["``", "`a`", "`{x}`", "`a{x}b`", "`\\{`", "`\\``", "`\\n\\x41\\u{41}`", "`{ x }`", "`{x}{y}`", "`a\\\nb`", "`{`{x}`}`", "`{ {1}[1] }`", "`}`", "`{\"}\"}`"];
+pub const INTERP_SPELLINGS: &[&str] = &["``", "`a`", "`{x}`", "`a{x}b`", "`\\{`", "`\\``", "`\\n\\x41\\u{41}`", "`{ x }`", "`{x}{y}`", "`a\\\nb`", "`{`{x}`}`", "`{ {1}[1] }`", "`}`", "`{\"}\"}`", "`\\u{D800}{x}\\u{DFFF}`"];
 
 pub fn spelling_programs() -> Vec<String> {
     let mut out = Vec::new();
@@ -217,6 +218,10 @@ pub fn spelling_programs() -> Vec<String> {
         out.push(format!("local a = {}", n));
         out.push(format!("return {} , - {} , t [ {} ] , {{ {} }} , f ( {} )", n, n, n, n, n));
         out.push(format!("for i = {} , {} do end", n, n));
+        out.push(format!("local a = {} or b", n));
+        out.push(format!("if a == {} then end", n));
+        out.push(format!("while a < {} do end", n));
+        out.push(format!("repeat until {} == a", n));
     }
     for s in STRING_SPELLINGS {
         out.push(format!("local a = {}", s));
